@@ -620,32 +620,43 @@ impl Gen<'_> {
         let l = slen.unwrap_or(50) as u64;
         let mut plen = slen;
         let r: Option<String> = if self.rng.chance(1, 2) {
-            if l == 0 && (self.clean || self.rng.chance(3, 4)) {
-                return None;
-            }
+            // (since 814bd03 the whole copy of an empty source involves no wrapping arithmetic: any history may ask for it)
             None
-        } else if self.clean || self.rng.chance(3, 4) {
+        } else if self.rng.chance(1, 2) {
             if l == 0 {
                 return None;
             }
             let a = self.rng.below(l);
-            let z = a + self.rng.below(l - a);
+            let z = if self.rng.chance(1, 5) { l - 1 } else { a + self.rng.below(l - a) };
             plen = Some((z - a + 1) as usize);
-            if !self.clean && self.rng.chance(1, 6) {
-                plen = Some((l - a) as usize);
+            if self.rng.chance(1, 6) {
+                // an open-ended range is refused (814bd03)
+                plen = None;
                 Some(format!("bytes={a}-"))
             } else {
                 Some(format!("bytes={a}-{z}"))
             }
         } else {
+            // values that are not `bytes=first-last` inside the source: refused with InvalidArgument (814bd03), in clean
+            // histories too
             plen = None;
-            Some(match self.rng.below(6) {
+            Some(match self.rng.below(16) {
                 0 => "bytes=5".to_owned(),
                 1 => "5-6".to_owned(),
                 2 => "bytes=-3".to_owned(),
                 3 => format!("bytes=0-{}", l + 10),
                 4 => "bytes=a-b".to_owned(),
-                _ => format!("bytes={}-{}", l, l + 3),
+                5 => format!("bytes={}-{}", l, l + 3),
+                6 => format!("bytes=0-{l}"),
+                7 => format!("bytes={l}-{l}"),
+                8 => "bytes=+0-0".to_owned(),
+                9 => "bytes=0-+0".to_owned(),
+                10 => "bytes=0-0-0".to_owned(),
+                11 => "bytes=1-0".to_owned(),
+                12 => "bytes=0-18446744073709551616".to_owned(),
+                13 => "bytes=18446744073709551615-18446744073709551615".to_owned(),
+                14 => "Bytes=0-0".to_owned(),
+                _ => self.rng.pick(&["", "bytes=", "bytes=-", "bytes= 0-0", "bytes=0-0 ", "bytes=0--1", "bytes=0x0-0"]).to_owned(),
             })
         };
         if let (Some(i), Some(pl)) = (i, plen) {
